@@ -83,6 +83,9 @@ INCOMPAT = {
     "pure_functions": ({"op": "pure_shell"}, ["wfn", "wfx"], False),
     "nonaufbau": ({"op": "nonaufbau"}, ["fchk"], False),
     "nonaufbau_beta": ({"op": "nonaufbau_beta"}, ["fchk"], False),
+    "nonaufbau_near": ({"op": "nonaufbau_near"}, ["fchk"], False),
+    # a generalized shell whose first contraction is Cartesian and whose second is pure
+    "pure_functions_mixed": ({"op": "gen_shell", "angmoms": [1, 2], "kinds": ["c", "p"]}, ["wfn", "wfx"], False),
     "no_schema_name": ({"op": "drop_extra", "key": "schema_name"}, ["json_qcschema"], False),
     # shells of an angular momentum beyond the format's convention table (not one of the reasons listed in the
     # quantifier, but an incompatibility in the sense of the statement; two-sided oracle as for the others)
@@ -384,11 +387,12 @@ def _call(w, objs, disk, tracker_box):
             atom_line = lambda data, i: data.atcoords[i][7]  # noqa: E731  IndexError while rendering
         return api.write_input(objs[0], path, w["fmt"], template=template, atom_line=atom_line, **kwargs)
     fmt_arg = w["fmt"] if w["select"] == "explicit" else w.get("fmt_arg")
+    extra_kw = {"atom_column": 1} if (w.get("env") or {}).get("bad_kwarg") else {}
     if op == "dump_one":
-        return iodata.dump_one(objs[0], path, fmt=fmt_arg, allow_changes=w["allow_changes"])
+        return iodata.dump_one(objs[0], path, fmt=fmt_arg, allow_changes=w["allow_changes"], **extra_kw)
     it, tracker = iters.make_iterable(disk, w["filename"], objs, w.get("iter_kind", "list"), w.get("raise_at"))
     tracker_box.append(tracker)
-    return iodata.dump_many(it, path, fmt=fmt_arg, allow_changes=w["allow_changes"])
+    return iodata.dump_many(it, path, fmt=fmt_arg, allow_changes=w["allow_changes"], **extra_kw)
 
 
 def _in_thread(fn):
@@ -701,6 +705,8 @@ def env_variant(w, kind):
         v["target_pre"] = None
     elif kind == "cwd_gone":
         v["env"] = {"cwd_gone": True}
+    elif kind == "bad_kwarg":
+        v["env"] = {"bad_kwarg": True}  # an option the selected writer does not know (a typo, an option of another format)
     else:
         v["env"] = {"variant": kind}  # the same data held by an object that is unusual but legal
     return v
@@ -734,6 +740,12 @@ def judge_env(v, rec, base):
             out.append(_v("wrong_exception", f"working directory removed: {et} ({exc}) instead of {bet or 'success'}", v, f"env/cwd_gone/{et}"))
         elif exc is None and rec["bytes"] != base["bytes"]:
             out.append(_v("bytes_differ", "working directory removed: other bytes written than in the ordinary environment", v, "env/cwd_gone"))
+    if env.get("bad_kwarg"):
+        # whatever happens to an unknown option, only the contract's exception types may come out
+        if exc is not None and et not in PREFLIGHT and et != "CallerFault":
+            out.append(_v("wrong_exception", f"unknown keyword argument: {et} escaped: {exc}", v, f"env/bad_kwarg/{et}"))
+        if et in ("PrepareDumpError", "FileFormatError") and v["op"] != "dump_many" and (rec["open_events"] or rec["bytes"] != (None if v.get("target_pre") is None else v["target_pre"].encode())):
+            out.append(_v("touched_before_error", f"unknown keyword argument: {et} but the target was opened/changed", v, "env/bad_kwarg"))
     var = env.get("variant")
     if var in ("uncopyable_extra", "defaultdict_extra"):
         # the same content in another container / next to data the writers never look at: same outcome
@@ -864,7 +876,9 @@ def run_task(task):
     erng = common.rng_for(task["seed"], ID, task["run"], "env")
     if w.get("iter_kind") != "gen_reentrant" and not isinstance(base["exc"], (StepBudgetExceeded, WallBudgetExceeded)):
         for kind, p_ in (("missing_dir", 0.3), ("cwd_gone", 0.2), ("uncopyable_extra", 0.12), ("defaultdict_extra", 0.15),
-                         ("counts_before_mo", 0.12), ("subclass", 0.1)):
+                         ("counts_before_mo", 0.12), ("subclass", 0.1), ("bad_kwarg", 0.12)):
+            if kind == "bad_kwarg" and w["op"] == "write_input":
+                continue
             if kind in ("uncopyable_extra", "defaultdict_extra", "counts_before_mo", "subclass") and (w["op"] == "write_input" or not w.get("objs")):
                 continue
             if erng.random() < p_:
